@@ -77,7 +77,7 @@ class SimPatch(Patch):
             return "nop\nthis is not assembly !!\n"
         if fault == "undef":
             sess.fired["callback-undef"] += 1
-            return "jmp no_such_symbol_anywhere\n"
+            return sess.world.isa.asm({"v": "jmp", "t": "no_such_symbol_anywhere"}) + "\n"
         if fault == "redef" and sess.world.syms:
             # (a module without any symbol has no name to redefine)
             sess.fired["callback-redef"] += 1
@@ -829,6 +829,10 @@ def run_session(world, model, sdesc, armed, index, logger=None, gen_cb=None, che
         except (core.Rejected, core.Desync, core.HarnessError, core.Violation):
             raise
         except Exception as e:  # unexpected: reported by the armed oracle
+            if type(e).__name__ == "PaddingError":
+                # documented failure: the ABI's nop does not fit into the
+                # padding an alignment requirement asks for (4-byte nops)
+                raise core.Rejected("PaddingError: " + str(e))
             sess.error = e
     return sess
 
